@@ -403,6 +403,10 @@ func c10(c *Ctx) {
 	c.Res.Rule = "start/stop cycles of the real listener on a loopback socket: 1-4 senders stream datagrams mixing valid events (all field values, index 0 and non-zero, zero and non-zero system date, 0x17 and 0x19 framing, system dates on the zone's transition days) with every malformed class, paced by acknowledgement (<= 24 outstanding) so that the kernel cannot drop; an offline checker compares the callback log with the send log: every must-deliver event exactly once with every field equal to the reference decoding, per-sender order, no event for invalid datagrams, one error callback per invalid datagram, connected exactly once after the socket is bound, stop returns nil within the watchdog and the address can be re-bound at once, delivered statuses unchanged at the end of the run; distinct = distinct (datagram class, verdict, senders, stop mode) + distinct datagrams"
 	c.Res.Note("zone", zone)
 	r := c.Rng("main/" + zone)
+	if c.Mode == "idle" {
+		c10Idle(c, r)
+		return
+	}
 	z := newZoneOracle(time.Local)
 	// transition days of the zone within the range of two digit system years
 	tdays := []civil{}
@@ -432,7 +436,8 @@ func c10(c *Ctx) {
 				devs = append(devs, DevCfg{ID: uint32(0x1a000000) + uint32(cycle)<<8 + uint32(s)<<4 + 1 + uint32(k), Name: fmt.Sprintf("c%d%d", s, k), Addr: "127.0.0.1:60000", Proto: "udp", NewDevice: k%2 == 0, TZ: []string{"Pacific/Kiritimati", "America/Anchorage", "Asia/Kathmandu", "UTC"}[(s*4+k+cycle)%4]})
 			}
 		}
-		u := mkClient(ClientCfg{Bind: "127.0.0.1:0", Listen: addr, Timeout: time.Second, Devices: devs})
+		// the client's request timeout has nothing to do with listening: a listen-only application may well configure 0
+		u := mkClient(ClientCfg{Bind: "127.0.0.1:0", Listen: addr, Timeout: []time.Duration{time.Second, 0, 2500 * time.Millisecond, -time.Second}[(cycle/2)%4], Devices: devs})
 		if cycle%2 == 1 && prevU != nil {
 			// the same client listens again on the same address: a second session is as good as the first
 			u, addr = prevU, prevAddr
@@ -728,6 +733,11 @@ func c10(c *Ctx) {
 		c10StopWithEventInHand(c, r, k)
 	}
 
+	// ---- the stop signal is in the channel before Listen is called (Ctrl-C during start-up): the listener stops all the same
+	for k := 0; k < c.N(6, 40); k++ {
+		c10SignalledBeforeStart(c, k)
+	}
+
 	// ---- rapid start/stop cycles without traffic: the address must be free the moment Listen returns
 	if c.Mode != "tz" {
 		rapid := c.N(1500, 12000)
@@ -782,4 +792,145 @@ func headOf(s []string, n int) []string {
 		return s[:n]
 	}
 	return s
+}
+
+// c10SignalledBeforeStart: the application's signal channel (buffered, as signal.Notify wants it) already holds the stop signal when
+// Listen is called. "The listener stops when signalled, returns without error, and the listen address can be bound again."
+func c10SignalledBeforeStart(c *Ctx, k int) {
+	port := freePort("127.0.0.3")
+	if port == 0 {
+		return
+	}
+	addr := fmt.Sprintf("127.0.0.3:%d", port)
+	u := mkClient(ClientCfg{Bind: "127.0.0.1:0", Listen: addr, Timeout: time.Second})
+	lst := &c10Listener{addr: addr}
+	q := make(chan os.Signal, 1+k%2)
+	sig := []os.Signal{os.Interrupt, syscall.SIGTERM, syscall.SIGHUP}[k%3]
+	q <- sig
+	done := make(chan error, 1)
+	go func() { done <- u.Listen(lst, q) }()
+	c.Res.Eval(1)
+	c.Res.DistinctKey("signalled-before-start", sig.String(), cap(q))
+	c.Res.Count("cycles:stop-signal-in-the-channel-before-listen-is-called", 1)
+	select {
+	case err := <-done:
+		if err != nil {
+			if strings.Contains(err.Error(), "address already in use") {
+				c.Res.Inconcl("bind collision on the listen port: " + err.Error())
+				return
+			}
+			c.Res.Violate("C10:stop:error", fmt.Sprintf("Listen, called with the stop signal (%v) already in the channel, returned an error: %v", sig, err), nil, int64(k))
+			return
+		}
+	case <-time.After(5 * time.Second):
+		c.Res.Violate("C10:stop:hang", fmt.Sprintf("Listen, called with the stop signal (%v) already in the channel, did not return within 5 s", sig), nil, int64(k))
+		q <- sig // let it go if it still can
+		return
+	}
+	lst.mu.Lock()
+	n := len(lst.connected)
+	lst.mu.Unlock()
+	if n > 1 {
+		c.Res.Violate("C10:connected:count", fmt.Sprintf("the connected callback fired %d times in one session", n), nil, int64(k))
+	}
+	if pc, err := net.ListenPacket("udp4", addr); err != nil {
+		c.Res.Violate("C10:rebind", "the listen address cannot be bound right after Listen returned: "+err.Error(), nil, int64(k))
+	} else {
+		pc.Close()
+	}
+}
+
+// c10Idle: a listener that hears nothing for a long while (a quiet site at night) is still the same session afterwards: the
+// connected callback has fired once, the address has been bound all the time (somebody else's bind is refused at every probe), the
+// events that finally arrive are delivered, and it stops when signalled.
+func c10Idle(c *Ctx, r gen.R) {
+	idle := 33 * time.Second
+	if c.Thorough() {
+		idle = []time.Duration{33 * time.Second, 65 * time.Second, 125 * time.Second}[c.MBatch%3]
+	}
+	port := freePort("127.0.0.3")
+	if port == 0 {
+		c.Res.Inconcl("no free port")
+		return
+	}
+	addr := fmt.Sprintf("127.0.0.3:%d", port)
+	u := mkClient(ClientCfg{Bind: "127.0.0.1:0", Listen: addr, Timeout: time.Second})
+	lst := &c10Listener{addr: addr}
+	q := make(chan os.Signal, 1)
+	done := make(chan error, 1)
+	go func() { done <- u.Listen(lst, q) }()
+	for k := 0; k < 3000; k++ {
+		lst.mu.Lock()
+		n := len(lst.connected)
+		lst.mu.Unlock()
+		if n > 0 {
+			break
+		}
+		time.Sleep(time.Millisecond)
+	}
+	c.Res.Eval(1)
+	c.Res.DistinctKey("idle", idle.String())
+	c.Res.Note("idle", fmt.Sprintf("listener left without traffic for %v", idle))
+	start := time.Now()
+	probes, unbound := 0, 0
+	for time.Since(start) < idle {
+		select {
+		case err := <-done:
+			c.Res.Violate("C10:listen-returned-early", fmt.Sprintf("Listen returned %v after %v without traffic and without a stop signal", err, time.Since(start).Round(time.Millisecond)), nil, 0)
+			return
+		default:
+		}
+		if pc, err := net.ListenPacket("udp4", addr); err == nil {
+			pc.Close()
+			unbound++
+		}
+		probes++
+		time.Sleep(25 * time.Millisecond)
+	}
+	c.Res.Count("idle:bind-probes", int64(probes))
+	if unbound > 0 {
+		c.Res.Violate("C10:idle:address-unbound", fmt.Sprintf("while the listener was idle its listen address could be bound by somebody else (%d of %d probes)", unbound, probes), nil, 0)
+	}
+	// the events that finally arrive
+	if conn, err := net.Dial("udp4", addr); err == nil {
+		for k := 0; k < 20; k++ {
+			conn.Write(c17Event(0x0b000001, uint32(k+1)))
+			time.Sleep(time.Millisecond)
+		}
+		conn.Close()
+	}
+	for k := 0; k < 2000; k++ {
+		lst.mu.Lock()
+		n := len(lst.events)
+		lst.mu.Unlock()
+		if n >= 20 {
+			break
+		}
+		time.Sleep(time.Millisecond)
+	}
+	lst.mu.Lock()
+	nev, ncon, nerr := len(lst.events), len(lst.connected), len(lst.errors)
+	lst.mu.Unlock()
+	c.Res.Count("idle:events-delivered-after-the-quiet-period", int64(nev))
+	if ncon != 1 {
+		c.Res.Violate("C10:connected:count", fmt.Sprintf("the connected callback fired %d times in one session (%v without traffic)", ncon, idle), nil, 0)
+	}
+	if nev != 20 || nerr != 0 {
+		c.Res.Violate("C10:event:lost", fmt.Sprintf("after %v without traffic 20 valid events were sent: %d delivered, %d error callbacks", idle, nev, nerr), nil, 0)
+	}
+	q <- os.Interrupt
+	select {
+	case err := <-done:
+		if err != nil {
+			c.Res.Violate("C10:stop:error", "Listen returned an error after the stop signal: "+err.Error(), nil, 0)
+		}
+	case <-time.After(5 * time.Second):
+		c.Res.Violate("C10:stop:hang", "Listen did not return within 5 s of the stop signal (after a long quiet period)", nil, 0)
+		return
+	}
+	if pc, err := net.ListenPacket("udp4", addr); err != nil {
+		c.Res.Violate("C10:rebind", "the listen address cannot be bound right after Listen returned: "+err.Error(), nil, 0)
+	} else {
+		pc.Close()
+	}
 }
